@@ -1,8 +1,9 @@
 #!/usr/bin/env python3
 """keep_seed.py <id> <src-out-dir> <needs> <detection>: store a confirmed seeded change under /verif/seeded/<id>/"""
 import sys, os, shutil, json, re
-pid, src, needs, detection = sys.argv[1:5]
-dst = f"/verif/seeded/{pid}"
+name, src, needs, detection = sys.argv[1:5]
+pid = name.split("-")[0]          # "C01-r2" is a second seed for property C01
+dst = f"/verif/seeded/{name}"
 os.makedirs(dst, exist_ok=True)
 for f in ["patch.diff", "demo.diff", "README.md", "confirm.log"]:
     if os.path.exists(f"{src}/{f}"):
@@ -28,7 +29,7 @@ meta = {
         "result": verdict,
     },
     "check_result": detection,
-    "run": f"tools/mkscratch.sh /tmp/sc; (cd /tmp/sc && git apply /verif/seeded/{pid}/patch.diff); VERIF_REPO=/tmp/sc ./check {pid} quick   # expected: exit 1",
+    "run": f"tools/mkscratch.sh /tmp/sc; (cd /tmp/sc && git apply /verif/seeded/{name}/patch.diff); VERIF_REPO=/tmp/sc ./check {pid} quick   # expected: exit 1",
 }
 json.dump(meta, open(f"{dst}/meta.json", "w"), indent=1)
 print(dst, verdict)
